@@ -25,6 +25,9 @@ def drive(ctx):
     from .. import suite
 
     suite.trace_suite(ctx)      # the repository's own tests, recorded by the external tracer
+    from .. import gr
+
+    gr.replay(ctx)          # behaviours of the Session state machine, real objects threaded
     q = ctx.quick()
     rnd = ctx.rnd
     n = 0
